@@ -67,9 +67,26 @@ SIVDecrypt(key, ads, z) ==
        IN IF t = v THEN <<TRUE, p>> ELSE <<FALSE, <<>>>>
 
 \* ---- the streaming form of CMAC(K, data xorend last) used by the implementation ----
-\* (internal/mac/aescmac XOREndAndCompute: CBC over the blocks of data, xoring the bytes of
-\* `last` into whatever part of the current block lies in the final BlockLen bytes of data).
-\* Its specification is simply CMAC of the xorend string; the equality of the two for every
-\* length is what the conformance check validates on the real routine.
+\* internal/mac/aescmac XOREndAndCompute never materialises data xorend last: it runs the CBC chain of
+\* RFC 4493 over the blocks of data and xors the bytes of `last` into whatever part of the current block lies
+\* within the final BlockLen bytes of data.  With n full blocks before the last one and r = Len(data) - n*BlockLen
+\* bytes in the last block, the first BlockLen - r bytes of `last` fall into the tail of block n and the remaining
+\* r bytes into the last block.  Its SPECIFICATION is simply CMAC of the xorend string (XorEndAndCompute below);
+\* XorEndStream transcribes the routine, and Self_SIV checks the identity of the two for every length (the
+\* conformance check validates the real routine against XorEndAndCompute).
+XorEndStream(k, data, last) ==
+  LET len   == Len(data)
+      n     == IF len % BlockLen = 0 THEN (len \div BlockLen) - 1 ELSE len \div BlockLen
+      r     == len - n * BlockLen                          \* 1..BlockLen bytes in the last block
+      head  == BlockLen - r                                \* bytes of `last` that belong to block n
+      Blk(i) == Slice(data, (i - 1) * BlockLen, BlockLen)
+      XBlk(i) == IF i = n /\ head > 0
+                 THEN Take(Blk(i), r) \o Xor(Drop(Blk(i), r), Take(last, head))
+                 ELSE Blk(i)
+      chain == FoldLeft(LAMBDA x, i : AESEnc(k, Xor(x, XBlk(i))), Zeros(BlockLen), [i \in 1..n |-> i])
+      lastB == Xor(Drop(data, n * BlockLen), Drop(last, head))
+      mLast == IF r = BlockLen THEN Xor(lastB, K1(k)) ELSE Xor(Pad(lastB), K2(k))
+  IN AESEnc(k, Xor(chain, mLast))
+
 XorEndAndCompute(k, data, last) == CMAC(k, XorEnd(data, last))
 ================================================================================
